@@ -150,6 +150,21 @@ def generate(rng, tier):
             elif k < 0.9: calls += [("motors_on", rng.randint(-1, 6), rng.randint(-1, 6)), ("motors_query",)]
             else: calls.append(("motors_off",))
         cases.append({"board": _board(rng), "calls": calls, "family": "sequence"})
+    # one object, two boards: a session on one board (same writes, no reads), the port closed, then the same object on another board
+    # (or the same one after a power cycle: its volatile variable store and motor state are back to other values): what the object
+    # remembers of the first session must not stand in for a transfer to the second board
+    for _ in range(40 if tier == "quick" else 2000):
+        ops = []
+        for _ in range(rng.randint(1, 4)):
+            k = rng.random()
+            if k < 0.45: ops.append(("var_write32", rng.choice(INTS + [rng.randint(-2**31, 2**31 - 1)]), rng.randint(0, 28)))
+            elif k < 0.65: ops.append(("var_write", rng.randint(0, 255), rng.randint(0, 31)))
+            elif k < 0.8: ops.append(("write_nick", _nick(rng)))
+            else: ops.append(("motors_on", rng.randint(1, 5), rng.randint(0, 5)))
+        back = {"var_write32": lambda o: ("var_read32", o[2]), "var_write": lambda o: ("var_read", o[2]), "write_nick": lambda o: ("query_nick",), "motors_on": lambda o: ("motors_query",)}
+        pre = list(ops) if rng.random() < 0.7 else sum([[o, back[o[0]](o)] for o in ops], [])
+        calls = sum([[o, back[o[0]](o)] for o in ops], [])
+        cases.append({"board": _board(rng), "pre_board": _board(rng), "pre_calls": pre, "pre_disconnect": rng.random() < 0.7, "calls": calls, "family": "after-a-session-on-another-board"})
     # a board that answers correctly but late: 1..25 reads time out before every reply (the client waits through up to 25)
     for c in list(cases):
         if rng.random() < 0.3:
@@ -162,6 +177,16 @@ def run_impl(c):
     obj = ebb3_motion.EBBMotionWrap()
     obj.port = port
     obj.version = "3.0.3"; obj.version_parsed = ebb3_serial.parse("3.0.3")
+    if "pre_calls" in c:
+        pb = c["pre_board"]
+        obj.port = BoardPort(PyBoard(pb["slots"], pb["nick"], pb["en1"], pb["en2"], pb["mode"]), 0)
+        for call in c["pre_calls"]:
+            try: S.do_call(obj, call)
+            except BaseException: pass
+        if c["pre_disconnect"]:
+            try: obj.disconnect()
+            except BaseException: pass
+        obj.port = port; obj.name = None
     obs = []
     for call in c["calls"]:
         bw, bl = len(port.writes), len(port.log)
